@@ -8,7 +8,8 @@
 //	                  on C08_IP (NTP port C08_PORT, NTS-KE 4460, CSPTP 319/320); blocks.
 //	C08_CHILD=client  reads one JSON command per line on stdin, runs
 //	                  client.MeasureClockOffsetIP / CSPTPClientIP.MeasureClockOffset
-//	                  once per command and prints one JSON result line.
+//	                  once per command and prints one JSON result line.  Commands with il = true use
+//	                  the client value kept under cid, with InterleavedMode on (client histories).
 package c08
 
 import (
@@ -172,6 +173,10 @@ type clientCmd struct {
 	Port       int    `json:"port"`
 	KE         string `json:"ke"` // host:port of the NTS-KE server
 	DeadlineMs int    `json:"deadline_ms"`
+	// client histories: IL = the client value has InterleavedMode set and is KEPT under the name Cid from
+	// call to call (its interleaved-mode state is what the history is about)
+	IL  bool   `json:"il"`
+	Cid string `json:"cid"`
 }
 
 type clientRes struct {
@@ -190,6 +195,8 @@ func childClient() {
 	fmt.Println("READY")
 	os.Stdout.Sync()
 	csptpc := map[string]*client.CSPTPClientIP{}
+	ipc := map[string]*client.IPClient{}
+	scc := map[string]*client.SCIONClient{}
 	for in.Scan() {
 		var cmd clientCmd
 		if err := json.Unmarshal(in.Bytes(), &cmd); err != nil {
@@ -202,6 +209,12 @@ func childClient() {
 		switch cmd.Op {
 		case "ip":
 			c := &client.IPClient{Log: log}
+			if cmd.IL {
+				if c = ipc[cmd.Cid]; c == nil {
+					c = &client.IPClient{Log: log, InterleavedMode: true}
+					ipc[cmd.Cid] = c
+				}
+			}
 			if cmd.Auth {
 				host, port, e := net.SplitHostPort(cmd.KE)
 				if e != nil {
@@ -222,6 +235,12 @@ func childClient() {
 			_, _, err = client.MeasureClockOffsetIP(ctx, log, c, laddr, raddr)
 		case "scion":
 			c := &client.SCIONClient{Log: log}
+			if cmd.IL {
+				if c = scc[cmd.Cid]; c == nil {
+					c = &client.SCIONClient{Log: log, InterleavedMode: true}
+					scc[cmd.Cid] = c
+				}
+			}
 			c.Auth.Enabled = cmd.SPAO
 			c.Auth.DRKeyFetcher = scionnet.NewFetcher(nil)
 			ia := addr.IA(scIA)
@@ -232,6 +251,11 @@ func childClient() {
 				panic(e)
 			}
 			sp := spath.Path{Src: ia, Dst: ia, DataplanePath: spath.Empty{}, NextHop: nh}
+			if cmd.IL {
+				// interfaces give the path a fingerprint: MeasureClockOffsetSCION keeps a client in interleaved
+				// mode on the path it used last, a client without one is reset when the call starts
+				sp.Meta = snet.PathMetadata{Interfaces: []snet.PathInterface{{IA: ia, ID: 1}, {IA: ia, ID: 2}}}
+			}
 			var ts time.Time
 			ts, _, err = client.MeasureClockOffsetSCION(ctx, log, []*client.SCIONClient{c}, local, remote, []snet.Path{sp})
 			if err == nil && ts.IsZero() {
